@@ -69,6 +69,24 @@ AREAS = {
 }
 
 
+def make_area_two(aname):
+    """two DERs in one controller: each element is clipped on its own, whatever the other one does"""
+    def fn(ctx):
+        dc = ctx.load("pandapower.control.controller.DERController.der_control")
+        pa = ctx.load("pandapower.control.controller.DERController.PQVAreas")
+        area = AREAS[aname](pa)
+        c = _ctrl(ctx, dc, area, False, False)
+        p = _series(ctx, [ctx.var("p0", 0., 1.5), ctx.var("p1", 0., 1.5)])
+        q = _series(ctx, [ctx.var("q0", -1.5, 1.5), ctx.var("q1", -1.5, 1.5)])
+        vm = _series(ctx, [ctx.var("vm0", 0.5, 1.5), ctx.var("vm1", 0.5, 1.5)])
+        p2, q2 = c._saturate(p.copy(), q.copy(), vm)
+        fl = area.q_flexibility(p_pu=p2, vm_pu=vm)
+        for i in range(2):
+            ctx.le(f"q_not_below_area_minimum/{i}", fl[i, 0], q2.values[i] + TOL)
+            ctx.le(f"q_not_above_area_maximum/{i}", q2.values[i], fl[i, 1] + TOL)
+    return fn
+
+
 def make_area(aname):
     def fn(ctx):
         dc = ctx.load("pandapower.control.controller.DERController.der_control")
@@ -117,6 +135,10 @@ def instances(tier):
         out += [Inst(f"saturate_sn_qprio{int(qp)}_two", make_saturate(qp, 2), nvars=24, samples=2, meta=dict(kernel="_saturate_sn_mva_step", q_prio=qp, n=2)) for qp in (True, False)]
     for a in AREAS:
         out.append(Inst(f"area_{a}", make_area(a), nvars=12, samples=3, raises=(ValueError,), meta=dict(kernel="_saturate+area", area=a)))
+    out.append(Inst("area_STATCOM_two_ders", make_area_two("STATCOM"), nvars=16, samples=3, raises=(ValueError,), meta=dict(kernel="_saturate+area", area="STATCOM", n=2)))
+    if tier == "thorough":
+        out.append(Inst("area_4120V2_two_ders", make_area_two("4120V2"), nvars=16, samples=2, raises=(ValueError,), max_paths=200000, timeout_ms=30000,
+                        meta=dict(kernel="_saturate+area", area="4120V2", n=2)))
     for a in PQ:
         out.append(Inst(f"in_area_{a}", make_in_area(a), nvars=12, samples=3, meta=dict(kernel="in_area vs q_flexibility", area=a)))
     return out
